@@ -53,7 +53,8 @@ def gen_circuit(rng, n=None, m=None, gateset=("rx", "ry", "h", "cx", "rzz", "rxx
         elif u < 0.87 or not allow_sbar:
             k = int(rng.integers(1, n + 1))
             qs = sorted(int(x) for x in rng.choice(n, size=k, replace=False))
-            instrs.append((i, "Bar", qs, "barrier", str(rng.choice(["", "", "note", "sample"]))))
+            # plain barriers: no label, other labels, and labels that merely CONTAIN the sampling label (padded with whitespace, prefixed)
+            instrs.append((i, "Bar", qs, "barrier", str(rng.choice(["", "", "note", "sample", " sample_observables ", "SAMPLE_OBSERVABLES\n", "xSAMPLE_OBSERVABLES"]))))
         else:
             lab = str(rng.choice(["SAMPLE_OBSERVABLES", "sample_observables", "Sample_Observables"]))
             qs = list(range(n))
